@@ -217,8 +217,11 @@ def x_diff_slivers(w, s, st, info):
         a = told.nodes[so.name(n)].get_sliver()
         b = tnew.nodes[st.name(n)].get_sliver()
         exp, unknown = expected_node_diff(so, n, st, n)
-        rexp, _ = expected_node_diff(st, n, so, n)
-        if unknown:
+        rexp, unknown2 = expected_node_diff(st, n, so, n)
+        if unknown or unknown2:
+            # a SmartNIC on one side matched by name with a component that has no (or several) network services
+            # on the other: not "present in both" in any useful sense, and not exercised
+            w.stats.inc('probe.diff.skipped_same_name_other_component')
             raise SkipStep()
         label = 'node %s' % so.name(n)
     elif what == 'service':
